@@ -34,7 +34,7 @@ def _convert(mapped_dict: dict, mapping):
     out_dict = copy.deepcopy(mapped_dict)
     for k, v in mapping.items():
         if isinstance(v, Constant):
-            out_dict[k] = v()
+            out_dict[k] = copy.deepcopy(v())
         elif k.endswith("._mapper"):
             field_name = k[: -len("._mapper")]
             content = mapped_dict.get(field_name, None)
@@ -61,7 +61,7 @@ def _convert(mapped_dict: dict, mapping):
 def convert_dict(the_dict: dict, versions_mapping):
     start_version = the_dict.get("version", 1)
     mapped_dict = copy.deepcopy(the_dict)
-    for mapping in versions_mapping[(start_version - 1) :]:
+    for offset, mapping in enumerate(versions_mapping[(start_version - 1) :]):
         mapped_dict = _convert(mapped_dict, mapping)
-        mapped_dict["version"] = mapped_dict.get("version", 0) + 1
+        mapped_dict["version"] = start_version + offset + 1
     return mapped_dict
